@@ -629,7 +629,9 @@ class Recfile(object):
         if start < 0:
             start = self.nrows + start
             if start < 0:
-                raise IndexError("Index out of bounds")
+                start = 0
+        elif start > self.nrows:
+            start = self.nrows
 
         if stop < 0:
             stop = self.nrows + stop
